@@ -640,7 +640,7 @@ def r4(cx):
                 T = t['f'].get('ga') or '?'
                 T0 = T[1:] if T.startswith('&') and T[1:] in CLOSED_TYPES else T
                 pl, org = _fmt_arg_place(body, du, t)
-                var = body.local_name(pl['l']) if pl is not None else None
+                var = Q.operand_name(body, du, {'cp': pl}) if pl is not None else None
                 desc = '%s [%s]: {%s} %s' % (root.replace('yash_builtin::', ''), what, m.group(1), T)
                 if T in QUOTING_TYPES and m.group(1) == 'display':
                     n_q += 1
